@@ -295,6 +295,11 @@ class Calls:
         if isinstance(fn, ast.Call) and unparse(fn.func) == 'getattr':
             t.uncontrolled, t.ukind = True, 'getattr-callable'
             return t
+        if isinstance(fn, ast.Call) and unparse(fn.func).split('.')[-1] == 'ensure_coroutine' and fn.args:
+            # ensure_coroutine(X)(...) calls X
+            st = self._resolve(func, ast.Call(func=fn.args[0], args=[], keywords=[]))
+            st.call = call
+            return st
 
         if isinstance(fn, ast.Name):
             name = fn.id
